@@ -61,7 +61,7 @@ CHECKS.update({
              "stack is popped on every path to a return (each `?` included), cross-function pairs are the discovered ones, frame "
              "entry/exit touch both stacks, only module-lifetime objects are rooted permanently at run time, and exception handlers are "
              "entered with the try block's scopes unwound. The generator "
-             "guard leak it found was repaired (fix: commit). It does not decide that live-object counts stay constant.",
+             "guard leak it found was repaired (fix: commit). It does not decide that live-object counts stay constant. Roots added to a frame's register guard are paired with removals (a register value is rooted once; repaired, fix: commit).",
         ref="4/C14"),
 })
 
@@ -139,7 +139,7 @@ CHECKS.update({
              "the saved value; step() restores on the error outcome; whoever empties the saved-environment slot restores it whenever "
              "it held a value; prepare() disposes of a still-active run. The nine "
              "violations of the pinned tree (all reproduced with observer programs) were repaired (fix: commit). Frames of a "
-             "run abandoned inside a call are not decided. Also: every error step() returns for a resumed run passes abort/finalize; prepare() looks at every slot a stopped run can live in; the disposer empties exports, the parked continuation and the wait graph; eval()/prepare() start with an empty export table.",
+             "run abandoned inside a call are not decided. Also: every error step() returns for a resumed run passes abort/finalize; prepare() looks at every slot a stopped run can live in; the disposer empties exports, the parked continuation and the wait graph; eval()/prepare() start with an empty export table. Both entry points dispose of an unfinished previous run and reset the parked program before they parse (repaired, fix: commits).",
         ref="4/C11"),
 })
 
@@ -150,7 +150,7 @@ CHECKS.update({
              "state and back (caches and re-derived guards exempt by a reasoned table), and the restore re-guards what it puts "
              "back. The four fields the pinned tree lost across a suspension (this, the block-scope stack, pending finally "
              "completions of the VM and of frames) were reproduced with awaiting programs and repaired (fix: commit). Schedules, "
-             "settlement order and combinator semantics are not decided. Also: whoever searches the current frame for an exception handler goes on to the callers' frames (an exception injected on resume is a throw at the suspension point).",
+             "settlement order and combinator semantics are not decided. Also: whoever searches the current frame for an exception handler goes on to the callers' frames (an exception injected on resume is a throw at the suspension point). Frames rebuilt from a saved state root their registers in their own guard (shared with C02).",
         ref="4/C07"),
 })
 
